@@ -1046,13 +1046,11 @@ class SingleLUTFormatFunction(FormatFunction):
             squeeze=True) -> numpy.ndarray:
         array = self._reverse_and_transpose(array, inverse=False)
         array = self._forward_functional_step(array, subscript)
-        if self.raw_ndim < self.formatted_ndim:
-            # apply slice in the band (final dimension)
+        if self.raw_ndim < self.formatted_ndim and len(subscript) > self.raw_ndim:
+            # apply slice in the band (final dimension), which DataSegment.read appends
+            # to the raw subscript; the leading dimensions already have the expected shape
             array = array.take(
                 indices=numpy.arange(self.formatted_shape[-1])[subscript[-1]], axis=-1)
-            # ensure shape is as expected - any squeeze handled consistently
-            _, out_shape = get_subscript_result_size(subscript, self.formatted_shape)
-            array = numpy.reshape(array, out_shape)
         if squeeze:
             return numpy.squeeze(array)
         else:
